@@ -37,6 +37,7 @@ public:
   SourceManager &SM;
   llvm::json::OStream &J;
   std::map<const Stmt *, int> StmtId;
+  std::map<const Decl *, int> DeclStmtOf;   // VarDecl -> id of the DeclStmt that declares it
   std::map<const Decl *, int> DeclId;
   std::map<std::string, int> FileId;
   std::vector<std::string> Files;
@@ -323,6 +324,7 @@ public:
         break;
       case Stmt::DeclStmtClass: {
         J.attribute("k", "decl");
+        for (auto *D : cast<DeclStmt>(S)->decls()) DeclStmtOf[D] = Id;
         J.attributeArray("decls", [&] {
           for (auto *D : cast<DeclStmt>(S)->decls())
             if (auto *V = dyn_cast<VarDecl>(D)) emitVarDecl(V);
@@ -427,7 +429,16 @@ public:
               for (const CFGElement &E : *B) {
                 if (auto CS = E.getAs<CFGStmt>()) {
                   auto It = StmtId.find(CS->getStmt());
-                  J.value(It == StmtId.end() ? -1 : It->second);
+                  int V = It == StmtId.end() ? -1 : It->second;
+                  if (V < 0) {
+                    // clang splits `T a = x, b;` into synthetic one-variable DeclStmts: map them back to the original
+                    if (auto *DS = dyn_cast<DeclStmt>(CS->getStmt()))
+                      if (DS->isSingleDecl()) {
+                        auto Jt = DeclStmtOf.find(DS->getSingleDecl());
+                        if (Jt != DeclStmtOf.end()) V = Jt->second;
+                      }
+                  }
+                  J.value(V);
                 }
               }
             });
